@@ -89,7 +89,59 @@ def put_rp_aggregates_swap(draw, d, PROFILE):
                  'put_rp_aggregates', ['adds-and-removes'], target=u)
 
 
+def put_rp_traits_swap(draw, d, PROFILE):
+    """PUT traits that removes at least one association and adds at least
+    one in one request."""
+    have = {}
+    for (p, t) in d.rp_traits:
+        have.setdefault(p, set()).add(t)
+    known = [t for t in gen.TRAITS if t in d.traits]
+    if not have or not known:
+        return machine.build(draw, d, PROFILE, 'put_rp_traits')
+    u = draw(st.sampled_from(sorted(have)))
+    cur = sorted(have[u])
+    pool = [t for t in known if t not in cur]
+    if not pool:
+        return machine.build(draw, d, PROFILE, 'put_rp_traits')
+    drop = draw(st.sampled_from(cur))
+    new = [t for t in cur if t != drop] + [draw(st.sampled_from(pool))]
+    v = (1, draw(st.sampled_from([39, 20, 6])))
+    return gen.R('PUT', '/resource_providers/%s/traits' % u, v,
+                 {'resource_provider_generation':
+                  d.providers[u]['generation'], 'traits': new},
+                 'put_rp_traits', ['adds-and-removes'], target=u)
+
+
+def put_allocations_existing_old(draw, d, PROFILE):
+    """PUT /allocations/{c} in the old microversion windows (1.0-1.7 without
+    project/user, 1.8-1.11 list form, 1.12-1.27 dict form without consumer
+    generation) for a consumer that already holds allocations: the write unit
+    is "old allocations out, new ones in"."""
+    from pv import cgen
+    held = sorted({c for (c, _p, _k) in d.allocations})
+    pairs = sorted(k for k in d.inventories if cgen.legal_amounts(d, *k))
+    if not held or not pairs:
+        return machine.build(draw, d, PROFILE, 'put_allocations')
+    c = draw(st.sampled_from(held))
+    rp, rc = draw(st.sampled_from(pairs))
+    a = draw(st.sampled_from(
+        cgen.legal_amounts(d, rp, rc, excluding=(c,)) or [1]))
+    n = draw(st.sampled_from([0, 4, 7, 8, 11, 12, 27]))
+    if n >= 12:
+        body = {'allocations': {rp: {'resources': {rc: a}}}}
+    else:
+        body = {'allocations': [{'resource_provider': {'uuid': rp},
+                                 'resources': {rc: a}}]}
+    if n >= 8:
+        body['project_id'] = draw(st.sampled_from(gen.PROJECTS))
+        body['user_id'] = draw(st.sampled_from(gen.USERS))
+    return gen.R('PUT', '/allocations/' + c, (1, n), body, 'put_allocations',
+                 ['existing-consumer-old-window'], consumers=[c])
+
+
 EXTRA = {'put_rp_aggregates_swap': put_rp_aggregates_swap,
+         'put_rp_traits_swap': put_rp_traits_swap,
+         'put_allocations_existing_old': put_allocations_existing_old,
          'move_subtree': move_subtree,
          'post_allocations_existing': post_allocations_existing,
          'delete_allocations_held': delete_allocations_held}
